@@ -18,6 +18,7 @@ DOC = {
  "C12.R2": "send_after: the task's result is the send's result (errors are reported through the handle)",
  "C12.R3": "interval bodies: interval(period) from the unmodified parameter; one tick awaited before the cycle; each in-cycle send dominated by an in-cycle tick; cycle guarded by a per-iteration status test (comparisons and/or membership in a constant table whose contents are read from its MIR) that excludes Draining/Stopping/Stopped; failed send leaves the cycle; no sleep in the cycle",
  "C12.R4": "twins: ActorRef/DerivedActorRef::{send_interval,send_after,exit_after,kill_after} delegate to the free function of the same name or contain a body that passes R1/R3 under that name",
+ "C12.R6": "every overwrite of a stored timer handle (struct field of type Option<JoinHandle<..>>) with a new timer is dominated by an abort of the old one (directly or through the field's cancel helper)",
  "C12.R5": "the crate's interval() returns the runtime's interval built from its parameter and does not reconfigure it (no set_missed_tick_behavior: default Burst keeps the k-th tick at k periods)",
 }
 
@@ -209,6 +210,67 @@ def r5(run, db):
             run.check(all(r["k"] == "arg" for r in roots) and roots, "period-param", "built from the parameter", "period not the parameter", f.where())
 
 
+def r6(run, db):
+    """`aborting a timer handle before it fires prevents delivery` is what the crate itself relies on wherever it *re-arms* a
+    stored timer: dropping a JoinHandle detaches the task, it does not cancel it.  Every overwrite of a field that stores a
+    timer handle (type Option<JoinHandle<..>>) with a new timer must be preceded, on every path, by an abort of the old one."""
+    n = 0
+    for k, a in db.adts.items():
+        if a.get("crate") != "ractor" or not a["variants"] or "::tests::" in k:
+            continue
+        for fld in a["variants"][0]["fields"]:
+            if not re.search(r"^std::option::Option<.*JoinHandle<", fld["ty"]):
+                continue
+            fname = fld["name"]
+            # helper(s) that abort the stored handle
+            aborters = set()
+            for g in db.crate_fns("ractor"):
+                if (g.file or "") != (a.get("file") or ""):
+                    continue
+                for c in g.calls():
+                    if c.matches(r"JoinHandle::<T>::abort$|JoinHandle<T>::abort$|::abort$"):
+                        names = [proj_field_name(e) for r in g.origins(c.args[0], through=lambda cc: 0 if cc.matches(r"Option::<T>::as_mut$|Option::<T>::as_ref$|Option::<T>::take$|Deref|unwrap") else None) for e in r.get("proj", []) + r.get("trail", []) if e.startswith("f:")]
+                        if fname in names:
+                            aborters.add(g.id)
+            for g in db.crate_fns("ractor"):
+                if (g.file or "") != (a.get("file") or "") or "::tests::" in g.id:
+                    continue
+                for site, st in g.stmts():
+                    if st["k"] != "assign" or fname not in [proj_field_name(e) for e in st["lhs"][1] if e.startswith("f:")]:
+                        continue
+                    # a store of a *new* timer (Some(..) / a call result), not the clearing `= None`
+                    v = None
+                    if st["rv"]["k"] == "agg":
+                        v = st["rv"].get("variant")
+                    elif st["rv"]["k"] == "use":
+                        for r in g.origins(st["rv"]["op"]):
+                            if r["k"] == "agg":
+                                v = r["stmt"]["rv"].get("variant")
+                            elif r["k"] == "call":
+                                v = "call"
+                    if v in (None, "None"):
+                        continue
+                    # only fields that hold *timers*: the new value is (Some of) the result of one of the crate's timer functions
+                    TIMER = r"::(send_after|send_interval|exit_after|kill_after)$"
+                    def from_timer(op, depth=0):
+                        for r in g.origins(op):
+                            if r["k"] == "call" and r["call"].matches(TIMER):
+                                return True
+                            if r["k"] == "agg" and depth < 2 and any(from_timer(o, depth + 1) for o in r["stmt"]["rv"]["ops"]):
+                                return True
+                        return False
+                    src = st["rv"]["op"] if st["rv"]["k"] == "use" else None
+                    is_timer = (src is not None and from_timer(src)) or (st["rv"]["k"] == "agg" and any(from_timer(o) for o in st["rv"]["ops"]))
+                    if not is_timer:
+                        continue
+                    n += 1
+                    ab = [c.site for c in g.calls() if (c.callee in aborters) or c.matches(r"JoinHandle::<T>::abort$")]
+                    good = bool(ab) and any(g.dominates(x, site) for x in ab)
+                    run.check(good, "timer-handle-overwrite:%s.%s@%s" % (k.split("::")[-1], fname, g.id.split("::")[-1]), "%s re-arms `%s` only after aborting the timer stored there" % (g.id.split("::")[-1], fname),
+                              "%s overwrites the stored timer handle `%s` without aborting the old timer: dropping a JoinHandle detaches the task, so the superseded timer still fires at its old due time" % (g.id.split("::")[-1], fname), g.where(st.get("l")))
+    run.anchor("re-armed timer handle stores", n, 1)
+
+
 Q = ["dflt"]
 TH = ["dflt", "rc", "atr", "astd"]
-RULES = [{"id": "C12.R%d" % i, "fn": f, "quick": Q, "thorough": TH} for i, f in enumerate([r1, r2, r3, r4, r5], 1)]
+RULES = [{"id": "C12.R%d" % i, "fn": f, "quick": Q, "thorough": TH} for i, f in enumerate([r1, r2, r3, r4, r5, r6], 1)]
